@@ -32,6 +32,7 @@ type C07BlankCase struct {
 	ExitFirst bool         `json:"exit_first"` // the monitor exits (context cancelled) before the ops
 	Wrap      int          `json:"wrap"`       // 0: bare Blank; 1: Blank inside a transforming source without manglers; 2: with a (type-preserving here) set->slice mangler
 	Ops       []C07BlankOp `json:"ops"`
+	DoneAfter bool         `json:"done_after,omitempty"` // finish with Blank.Done under a 1h deadline
 }
 
 func genC07Blank(t *rapid.T) C07BlankCase {
@@ -49,6 +50,7 @@ func genC07Blank(t *rapid.T) C07BlankCase {
 		}
 		c.Ops = append(c.Ops, op)
 	}
+	c.DoneAfter = rapid.Bool().Draw(t, "done_after")
 	return c
 }
 
@@ -221,11 +223,42 @@ func runC07Blank(c C07BlankCase) (verdict vrt.Verdict) {
 				return
 			}
 		}
+		if c.DoneAfter {
+			// whatever the SetSource calls returned, the Blank must still answer
+			ctx, cancel := context.WithTimeout(context.Background(), time.Hour)
+			defer cancel()
+			t0 := time.Now()
+			done := make(chan struct{})
+			go func() {
+				blank.Done(ctx)
+				close(done)
+			}()
+			select {
+			case <-done:
+				if el := time.Since(t0); el > time.Hour {
+					fail("Blank.Done after the SetSource calls returned after %v, past its 1h deadline", el)
+				}
+			case <-time.After(2 * time.Hour):
+				fail("Blank.Done after the SetSource calls did not return within two hours although its context had a 1h deadline")
+			}
+		}
 	})
 	if msg != "" {
-		return vrt.KeyedViolationf("C07", "%s", msg)
+		return vrt.KeyedViolationf("blank", "%s", msg)
 	}
 	return vrt.OK(heldCount > 0 || c.ExitFirst || rejected > 0, fmt.Sprintf("held=%d", min(heldCount, 3)), fmt.Sprintf("exit_first=%v", c.ExitFirst), fmt.Sprintf("wrap=%d", c.Wrap))
+}
+
+func TestC08Blank(t *testing.T) {
+	curT = t
+	vrt.Check(t, vrt.Prop[C07BlankCase]{
+		ID: "C08", Name: "blank",
+		Rule: "the histories of C07/blank (1..5 Blank.SetSource calls with live or 1h-deadline contexts against a free, parked or exited monitor, values that verify or not), optionally finished by Blank.Done under a 1h deadline; " +
+			"oracle (C08's clauses): every call returns no later than its own context ends (virtual time), also the calls issued after an earlier call failed, timed out or the monitor exited (a leaked Blank mutex or a missing answer leaves the bubble deadlocked), nothing panics; " +
+			"non-trivial = a call that met a parked or exited monitor, or a rejected value; distinct = distinct case JSON",
+		Assumptions: []string{"SetSource is called after Config, as documented"},
+		Gen:         genC07Blank, Run: runC07Blank,
+	})
 }
 
 func TestC07Blank(t *testing.T) {
